@@ -1,0 +1,49 @@
+//go:build verif
+
+package wamp
+
+// Contracts for the deductive verifier under /verif (govc). This file contains
+// only comments: it adds no code with or without the build tag.
+
+//@ fieldinv IDGen.next : v <= MaxID
+
+//@ func (u URI) ValidURI
+//@   props C19
+//@   pure
+//@   ensures [strict-wildcard] strict && match == MatchWildcard ==> (result <==> inre(string(u), "strict-wildcard"))
+//@   ensures [strict-prefix]   strict && match == MatchPrefix ==> (result <==> inre(string(u), "strict-prefix"))
+//@   ensures [strict-exact]    strict && match != MatchWildcard && match != MatchPrefix ==> (result <==> inre(string(u), "strict-exact"))
+//@   ensures [loose-wildcard]  !strict && match == MatchWildcard ==> (result <==> inre(string(u), "loose-wildcard"))
+//@   ensures [loose-prefix]    !strict && match == MatchPrefix ==> (result <==> inre(string(u), "loose-prefix"))
+//@   ensures [loose-exact]     !strict && match != MatchWildcard && match != MatchPrefix ==> (result <==> inre(string(u), "loose-exact"))
+
+//@ func (u URI) PrefixMatch
+//@   props C19
+//@   pure
+//@   ensures [prefix] result <==> hasPrefix(string(u), string(prefix))
+
+//@ func (u URI) WildcardMatch
+//@   props C19
+//@   ensures [wildcard] result <==> wildcardSpec(string(u), string(wildcard))
+//@   loop range wcParts
+//@     invariant [same-len] len(parts) == len(wcParts)
+//@     invariant [bound] rangeindex < len(wcParts)
+//@     invariant [prefix-ok] forall j mathint :: 0 <= j && j <= rangeindex ==> (wcParts[j] == "" || wcParts[j] == parts[j])
+
+//@ spec func wildcardSpec(u string, w string) bool = ncomp(u, ".") == ncomp(w, ".") && (forall i mathint :: 0 <= i && i < ncomp(w, ".") ==> (comp(w, ".", i) == "" || comp(w, ".", i) == comp(u, ".", i)))
+
+//@ func (g *IDGen) Next
+//@   props C19 C03
+//@   requires g != nil
+//@   modifies g.next
+//@   ensures [seq]   old(g.next) < MaxID ==> result == old(g.next) + 1
+//@   ensures [wrap]  old(g.next) == MaxID ==> result == 1
+//@   ensures [range] 1 <= result && result <= MaxID && g.next == result
+
+//@ func (g *SyncIDGen) Next
+//@   props C19 C03
+//@   requires g != nil
+//@   modifies g.IDGen.next
+//@   ensures [seq]   old(g.IDGen.next) < MaxID ==> result == old(g.IDGen.next) + 1
+//@   ensures [wrap]  old(g.IDGen.next) == MaxID ==> result == 1
+//@   ensures [range] 1 <= result && result <= MaxID && g.IDGen.next == result
